@@ -153,6 +153,30 @@ func c02(c *wk.Ctx) {
 			}
 			idx++
 		}
+		// many siblings in one vector (hundreds of cheap elements; all groups present)
+		hasVec := false
+		for i := range d.Params {
+			if d.Params[i].Type.Vector {
+				hasVec = true
+			}
+		}
+		if hasVec {
+			lens := []int{700}
+			if !c.Quick() {
+				lens = []int{513, 1500, 6000}
+			}
+			for _, n := range lens {
+				if c.Mine(idx) {
+					r := c.Rand(idx)
+					o := &ts.GenOpts{R: r, MaxDepth: 1, Costs: costs, ForceStrLen: -1, ForceVecLen: n, Presence: all}
+					v := allSchema.Gen(d, o, 0)
+					c.Begin(idx, fmt.Sprintf("%s vector-of-%d", d.Name, n))
+					c02one(c, idx, d, v, fmt.Sprintf("vec%d", n))
+					c.Count("values.with_long_vectors", 1)
+				}
+				idx++
+			}
+		}
 	}
 	// the format limit: 2^24-1 is the longest string, 2^24 must be refused
 	for _, n := range []int{1<<24 - 1, 1 << 24, 1<<24 + 1} {
@@ -226,6 +250,11 @@ func c02one(c *wk.Ctx, idx int, d *ts.Def, v *ts.Value, mask string) {
 		c.Viol("C02", idx, "encode/error/"+d.Name, merr.Error(), d.Line)
 		return
 	}
+	// the serialisation handed out for the previous case must still be the bytes it was
+	if c02prev.b != nil && !bytes.Equal(c02prev.b, c02prev.cp) {
+		c.Viol("C02", idx, "encode/earlier-result-overwritten", fmt.Sprintf("the bytes returned for %s changed at offset %d while %s was being serialised", c02prev.name, firstDiff(c02prev.b, c02prev.cp), d.Name), d.Line)
+	}
+	c02prev.b, c02prev.cp, c02prev.name = got, append([]byte(nil), got...), d.Name
 	if !bytes.Equal(got, want) {
 		off := firstDiff(got, want)
 		fld := fieldAt(v, off)
@@ -251,8 +280,22 @@ func c02one(c *wk.Ctx, idx int, d *ts.Def, v *ts.Value, mask string) {
 	}
 	if err := bridge.Match(reflect.ValueOf(obj), v); err != nil {
 		c.Viol("C02", idx, "decode/value/"+d.Name, err.Error(), d.Line)
+	} else {
+		if c02prev.v != nil {
+			if err := bridge.Match(reflect.ValueOf(c02prev.obj), c02prev.v); err != nil {
+				c.Viol("C02", idx, "decode/earlier-value-changed", fmt.Sprintf("the %s decoded earlier changed while %s was being decoded: %v", c02prev.v.Def.Name, d.Name, err), d.Line)
+			}
+		}
+		c02prev.obj, c02prev.v = obj, v
 	}
 	c.Distinct(d.Name, mask, len(want))
+}
+
+var c02prev struct {
+	b, cp []byte
+	name  string
+	obj   tl.Object
+	v     *ts.Value
 }
 
 func sharedGroup(d *ts.Def) bool {
